@@ -36,6 +36,10 @@ import (
 //   - evk must have been generated using the key-generator of the large ring degree with as input small-key -> large-key.
 func (eval Evaluator) ApplyEvaluationKey(ctIn *Ciphertext, evk *EvaluationKey, opOut *Ciphertext) (err error) {
 
+	if evk == nil {
+		return fmt.Errorf("cannot ApplyEvaluationKey: evk is nil")
+	}
+
 	if ctIn.Degree() != 1 || opOut.Degree() != 1 {
 		return fmt.Errorf("cannot ApplyEvaluationKey: input and output Ciphertext must be of degree 1")
 	}
